@@ -21,24 +21,36 @@ import random
 from .. import common, corr_parse, gen, gram, peg_ref
 
 META = dict(
-    text="Lean theorems (PPProofs/Props/C01.lean), each for ALL sub-expression behaviours, inputs, locations and list "
-         "shapes: and_rest_iff_chain (a sequence succeeds iff every element matches in order, tokens concatenated), "
-         "matchfirst_first (iff-characterisation of '|'), or_longest_leftmost + sortDesc_head + best_spec + orPass1_cands "
-         "(the two-pass Or returns the longest trial match, leftmost on ties), rep_greedy_no_giveback and "
+    text="(1) CLOSED theorem for the plain fragment (PPProofs/Props/C01Sem.lean over the declarative big-step PEG reading "
+         "`Sem` of Props/C01SemDef.lean - one inductive relation with the whitespace rule, ordered choice, greedy "
+         "non-backtracking repetition, lookaheads, Group/Suppress/Forward): plain_parse_sound (for EVERY plain node table - "
+         "arbitrary sharing and recursion through Forward, any skipWhitespace/whiteChars/callPreparse configuration - every "
+         "input, location, callPreParse/doActions value and fuel: a match returned by the transcribed _parseNoCache is the "
+         "reading's match with the same end and tokens, a ParseException means the reading has no match, and no fatal "
+         "exception or IndexError can come out), sem_deterministic (the reading is a partial function), hence "
+         "plain_parse_iff_sem (for every returning run: success <-> Sem derives that match, failure <-> Sem derives 'no "
+         "match'), plain_parse_stable / plain_parse_ok_excludes_fail (independent of fuel and doActions), plainTable_iff "
+         "(the driver's executable test is exactly the hypothesis). The driver reports per compared grammar whether the "
+         "hypothesis holds (evidence: plain_fragment; about 2/3 of the generated grammars). Plain = Literal, Empty, NoMatch, "
+         "StringEnd, Word/CharsNotIn/Keyword/CaselessLiteral/LineEnd/WordStart/WordEnd as given terminal matchers, And, "
+         "MatchFirst, Opt, OneOrMore/ZeroOrMore, NotAny, FollowedBy, Group, Suppress, Forward; no actions/names, ignorables, "
+         "error stops, stop_on. PARTIAL: 'the reading has a result => the algorithm returns it' (no divergence) is not proved. "
+         "(2) Outside the fragment, clause theorems (PPProofs/Props/C01.lean), each for ALL sub-expression behaviours, inputs, "
+         "locations and list shapes: and_rest_iff_chain, matchfirst_first, or_longest_leftmost + sortDesc_head + best_spec + "
+         "orPass1_cands (the two-pass Or returns the longest trial match, leftmost on ties), rep_greedy_no_giveback and "
          "rep_iterations_advance, lookahead_consumes_nothing, notany_iff, opt_spec, zeroOrMore_spec, group_nests / "
          "suppress_omits / combine_joins, and the whitespace rule skipWhite_stops / skipWhite_skips_only_white / "
-         "preParse_is_skipWhite / skip_then_match (a skipping element runs its parseImpl at the first non-blank "
-         "position even if it then matches nothing). These clause theorems are the big-step rules of the reading over "
-         "the transcribed parseImpl bodies. PARTIAL w.r.t. the statement: there is no single closed theorem "
-         "'parse_string succeeds iff a declarative Sem derivation exists' - the global statement is decided by the "
+         "preParse_is_skipWhite / skip_then_match. PARTIAL w.r.t. the statement: Or, SkipTo, DelimitedList, Combine, "
+         "Located, actions and ignorables have clause theorems or model coverage only, no closed theorem; Each and Regex are "
+         "outside the model (reference interpreter / zoo only). The global statement on the real code is decided by the "
          "independent reference interpreter of the reading (harness/peg_ref.py) run against the real parse_string over "
-         "exhaustive small scopes and random deep grammars; Each and Regex are outside the model (oracle/zoo only); "
-         "SkipTo and DelimitedList are in the model and the oracle but have no clause theorem.",
+         "exhaustive small scopes and random deep grammars.",
     note="Trusted: Lean kernel; axioms propext/Classical.choice/Quot.sound; the parse model (transcription of core.py, "
          "node attributes extracted from the live objects, validated differentially on every run); the reference "
          "interpreter is hand-written from the documentation and is only a search oracle.",
-    technique="Lean 4 proof of the PEG-reading clauses over a transcribed parse model; differential correspondence; "
-              "independent reference-interpreter oracle on the real code",
+    technique="Lean 4 proof: closed soundness + determinism of the transcribed parser against a declarative big-step PEG "
+              "semantics (plain fragment), clause theorems elsewhere; differential correspondence; independent "
+              "reference-interpreter oracle on the real code",
     design="§5 C01",
 )
 
